@@ -116,6 +116,13 @@ def _tree(draw):
             t = draw(st.sampled_from(sorted(links)))
             links[p] = (os.path.relpath(t, parent or "."), style)
         elif style == "throughlink":
+            if not any(ls in ("rel", "abs") and os.path.normpath(os.path.join(os.path.dirname(lp), lt) if not lt.startswith("/") else lt[1:]) in dirs
+                       for lp, (lt, ls) in links.items()):
+                # no link to a directory yet: make one (to a directory that holds a file)
+                withfiles = sorted({os.path.dirname(f) for f in fl if os.path.dirname(f)})
+                if withfiles:
+                    d0 = draw(st.sampled_from(withfiles))
+                    links["lnd%d" % i] = (d0, "rel")
             # the target path runs THROUGH another symlink member (a link to a directory), whatever the member order
             dl = [(lp, lt) for lp, (lt, ls) in links.items() if ls in ("rel", "abs")
                   and os.path.normpath(os.path.join(os.path.dirname(lp), lt) if not lt.startswith("/") else lt[1:]) in dirs]
